@@ -553,3 +553,56 @@ theorem cvt_acc (src dst : Fmt) (hs : src.Ok) (hd : dst.Ok) (top : Nat) (ht : ds
   cases isNeg src a <;> simp <;> constructor <;> linarith
 
 end SF
+
+namespace SF
+
+/-- **Accuracy of `div`** on finite operands, non-zero divisor, exact quotient not exceeding `top`. -/
+theorem div_acc (f : Fmt) (hf : f.Ok) (top : Nat) (ht : f.Top top) (a b : Nat) (ha : Fin f a) (hb : Fin f b)
+    (hb0 : absBits f b ≠ 0) (hbound : |toQ f a / toQ f b| ≤ top) :
+    Fin f (div f a b) ∧ |toQ f (div f a b) - toQ f a / toQ f b| ≤ |toQ f a / toQ f b| * eps f + eta f := by
+  obtain ⟨a1, a2⟩ := fin_flags f a ha
+  obtain ⟨b1, b2⟩ := fin_flags f b hb
+  have hz : isZero f b = false := by unfold isZero; simpa using hb0
+  have hda := den_pos' f a
+  have hdb := den_pos' f b
+  have hnb : 0 < num f b := by
+    rw [← num_abs]
+    exact num_pos f _ (Nat.pos_of_ne_zero hb0) (Nat.mod_lt _ (signBit_pos f))
+  have hdaq : (den f a : ℚ) ≠ 0 := by exact_mod_cast (Nat.pos_iff_ne_zero.mp hda)
+  have hdbq : (den f b : ℚ) ≠ 0 := by exact_mod_cast (Nat.pos_iff_ne_zero.mp hdb)
+  have hnbq : (num f b : ℚ) ≠ 0 := by exact_mod_cast (Nat.pos_iff_ne_zero.mp hnb)
+  have hvb : valQ f b ≠ 0 := by unfold valQ; exact div_ne_zero hnbq hdbq
+  have hquot : ((num f a * den f b : Nat) : ℚ) / ((den f a * num f b : Nat) : ℚ) = valQ f a / valQ f b := by
+    unfold valQ; push_cast; field_simp
+  have habs : |toQ f a / toQ f b| = valQ f a / valQ f b := by rw [abs_div, abs_toQ, abs_toQ]
+  rw [habs] at hbound ⊢
+  obtain ⟨hfin, hacc⟩ := rnd_ok f hf top ht (num f a * den f b) (den f a * num f b) (Nat.mul_pos hda hnb)
+    (mul_lt_8000 (num_lt' f hf a) (den_lt f b hf)) (mul_lt_8000 (den_lt f a hf) (num_lt' f hf b))
+    (by rw [hquot]; exact hbound)
+  rw [hquot] at hacc
+  have hm : div f a b = withSign f (isNeg f a != isNeg f b) (rnd f (num f a * den f b) (den f a * num f b)) := by
+    unfold div
+    simp only [force_eq, a1, a2, b1, b2, hz, Bool.or_self, Bool.false_eq_true, if_false]
+  rw [hm]
+  refine ⟨fin_withSign f hf _ _ hfin, ?_⟩
+  rw [toQ_withSign f hf _ _ (by omega)]
+  unfold toQ
+  rw [abs_le] at hacc ⊢
+  obtain ⟨l, u⟩ := hacc
+  cases isNeg f a <;> cases isNeg f b <;> simp [neg_div, div_neg] <;> constructor <;> linarith
+
+/-- **Accuracy of integer conversion** (`float32(n)`): one rounding. -/
+theorem ofNat_acc (f : Fmt) (hf : f.Ok) (top : Nat) (ht : f.Top top) (n : Nat) (hn : n ≤ top) :
+    Fin f (ofNat f n) ∧ |toQ f (ofNat f n) - n| ≤ (n : ℚ) * eps f + eta f := by
+  have h1 : (1:Nat) < 2 ^ 8000 := Nat.one_lt_two_pow (by omega)
+  obtain ⟨hfin, hacc⟩ := rnd_ok f hf top ht n 1 (by omega) (Nat.lt_of_le_of_lt hn ht.small) h1
+    (by simpa using (by exact_mod_cast hn : (n:ℚ) ≤ top))
+  simp only [Nat.cast_one, div_one] at hacc
+  unfold ofNat
+  have hs := infBits_lt_signBit f hf
+  have hab : absBits f (rnd f n 1) = rnd f n 1 := by unfold absBits; exact Nat.mod_eq_of_lt (by omega)
+  have hng : isNeg f (rnd f n 1) = false := by unfold isNeg; exact ble_false (by omega)
+  refine ⟨⟨by rw [hab]; exact hfin, by omega⟩, ?_⟩
+  unfold toQ; rw [hng]; simpa using hacc
+
+end SF
